@@ -6,6 +6,7 @@ package main
 
 import (
 	"fmt"
+	"os"
 	"sort"
 	"strings"
 )
@@ -49,21 +50,29 @@ type accessRec struct {
 	locks []*Cell
 	where string
 	repo  bool
+	init  bool // a write made while the location was still exclusive to its first goroutine
 }
 
 type Monitor struct {
 	cells   map[*Cell][]accessRec
 	maps    map[*MapObj][]accessRec
+	bufs    map[*ByteObj][]accessRec
 	races   map[string]bool
 	order   map[[2]*Cell]string // lock order edges
 	names   map[*Cell]string
 	cycles  map[string]bool
 	mutexVC map[*Cell]VC
+	mutexHB bool // treat unlock->lock as happens-before (conservative mode)
+	// Eraser-style initialisation phase: until a second goroutine touches a location, writes of
+	// its first owner are initialisation (publishing an object through a mutex-protected
+	// structure and reading its fields afterwards is not a race)
+	owner   map[interface{}]int
+	shared  map[interface{}]bool
 }
 
 func newMonitor() *Monitor {
-	return &Monitor{cells: map[*Cell][]accessRec{}, maps: map[*MapObj][]accessRec{}, races: map[string]bool{},
-		order: map[[2]*Cell]string{}, names: map[*Cell]string{}, cycles: map[string]bool{}, mutexVC: map[*Cell]VC{}}
+	return &Monitor{cells: map[*Cell][]accessRec{}, maps: map[*MapObj][]accessRec{}, bufs: map[*ByteObj][]accessRec{}, races: map[string]bool{},
+		order: map[[2]*Cell]string{}, names: map[*Cell]string{}, cycles: map[string]bool{}, mutexVC: map[*Cell]VC{}, owner: map[interface{}]int{}, shared: map[interface{}]bool{}}
 }
 
 func (in *Interp) whereNow() (string, bool) {
@@ -98,6 +107,9 @@ func (m *Monitor) check(kind string, prev []accessRec, cur accessRec) {
 		if p.g == cur.g || (!p.write && !cur.write) {
 			continue
 		}
+		if p.write && p.init {
+			continue // writes of the initialisation phase do not count (Eraser's exclusive state)
+		}
 		if cur.vc[p.g] >= p.epoch { // p happens-before cur
 			continue
 		}
@@ -127,11 +139,22 @@ func rw(w bool) string {
 	return "read"
 }
 
+func lockKey(locks []*Cell) string {
+	ids := make([]int, len(locks))
+	for i, l := range locks {
+		ids[i] = l.id
+	}
+	sort.Ints(ids)
+	return fmt.Sprint(ids)
+}
+
 func keep(prev []accessRec, cur accessRec) []accessRec {
-	// keep the last read and last write per goroutine
+	// keep the last read and the last write per goroutine AND per lock set: an unlocked access
+	// must not be forgotten because the same goroutine later accessed the location under a lock
+	ck := lockKey(cur.locks)
 	out := prev[:0]
 	for _, p := range prev {
-		if p.g == cur.g && p.write == cur.write {
+		if p.g == cur.g && p.write == cur.write && lockKey(p.locks) == ck {
 			continue
 		}
 		out = append(out, p)
@@ -144,6 +167,7 @@ func (p *Path) access(in *Interp, c *Cell, write bool) {
 		return
 	}
 	cur := p.mon.rec(in, write)
+	p.mon.phase(c, &cur)
 	prev := p.mon.cells[c]
 	p.mon.check("memory cell", prev, cur)
 	p.mon.cells[c] = keep(prev, cur)
@@ -154,7 +178,11 @@ func (p *Path) accessMap(in *Interp, m *MapObj, write bool) {
 		return
 	}
 	cur := p.mon.rec(in, write)
+	p.mon.phase(m, &cur)
 	prev := p.mon.maps[m]
+	if os.Getenv("VERIF_DEBUG_RACE") != "" && strings.Contains(cur.where, os.Getenv("VERIF_DEBUG_RACE")) {
+		fmt.Fprintf(os.Stderr, "ACCESS map g=%d(%s) %s %s epoch=%d vc=%v locks=%d prev=%d\n", cur.g, cur.gname, rw(write), cur.where, cur.epoch, cur.vc, len(cur.locks), len(prev))
+	}
 	p.mon.check("map", prev, cur)
 	p.mon.maps[m] = keep(prev, cur)
 }
@@ -187,4 +215,74 @@ func (m *Monitor) reports() []string {
 	}
 	sort.Strings(out)
 	return out
+}
+
+// phase tracks the exclusive (initialisation) phase of a location.
+func (m *Monitor) phase(loc interface{}, cur *accessRec) {
+	if m.shared[loc] {
+		return
+	}
+	o, seen := m.owner[loc]
+	if !seen {
+		m.owner[loc] = cur.g
+		o = cur.g
+	}
+	if o != cur.g {
+		m.shared[loc] = true
+		return
+	}
+	if cur.write {
+		cur.init = true
+	}
+}
+
+// whereRepo attributes an access made inside shim code (fakenet copying into a buffer the
+// repository handed to it) to the nearest repository frame.
+func (in *Interp) whereRepo() (string, bool) {
+	for fr := in.top; fr != nil; fr = fr.caller {
+		pos := in.eng.prog.Fset.Position(fr.pos)
+		f := shortFile(pos.Filename)
+		if strings.HasPrefix(pos.Filename, in.eng.cfg.repoDir+"/") && !strings.Contains(pos.Filename, "zzverif") && !strings.HasPrefix(f, "zz_verif") {
+			return fmt.Sprintf("%s:%d(%s)", f, pos.Line, fr.fn.Name()), true
+		}
+		if strings.HasPrefix(f, "zz_verif") {
+			return "", false // called from the harness: not an access of the repository
+		}
+	}
+	return "", false
+}
+
+// accessBytes logs an access to the contents of a byte buffer. Buffers are handed over through a
+// mutex-protected pool, so here happens-before includes mutex unlock -> lock.
+func (p *Path) accessBytes(in *Interp, o *ByteObj, write bool) {
+	if p.mon == nil || len(p.sched.gs) < 2 || o == nil {
+		return
+	}
+	w, repo := in.whereRepo()
+	if !repo {
+		return
+	}
+	g := in.g
+	if g.vcFull == nil {
+		g.vcFull = VC{}
+	}
+	if g.vcFull[g.id] == 0 {
+		g.vcFull[g.id] = 1
+	}
+	cur := accessRec{g: g.id, gname: g.name, epoch: g.vcFull[g.id], vc: g.vcFull.copy(), write: write, where: w, repo: true}
+	prev := p.mon.bufs[o]
+	for _, q := range prev {
+		if q.g == cur.g || (!q.write && !cur.write) {
+			continue
+		}
+		if cur.vc[q.g] >= q.epoch {
+			continue
+		}
+		a, b := rw(q.write)+"@"+q.where, rw(cur.write)+"@"+cur.where
+		if a > b {
+			a, b = b, a
+		}
+		p.mon.races[fmt.Sprintf("RACE on buffer contents: %s || %s", a, b)] = true
+	}
+	p.mon.bufs[o] = keep(prev, cur)
 }
